@@ -257,6 +257,19 @@ func genSteps(t *rapid.T, a tgen.Args, docLen int, exhaustive bool) []step {
 	j.Cancelled = true
 	out = append(out, step{job: j, kind: "cancel"})
 	plain()
+	// the same faults when the caller hands Render a buffer it took from templ's runtime itself
+	{
+		jr := tbatch.Plain(0, a)
+		jr.RuntimeBuf = true
+		out = append(out, step{job: jr, kind: "plain"})
+		jc := tbatch.Plain(0, a)
+		jc.Cancelled, jc.RuntimeBuf = true, true
+		out = append(out, step{job: jc, kind: "cancel"})
+		jw := tbatch.Plain(0, a)
+		jw.RuntimeBuf, jw.WriterFailAt = true, max(0, docLen/3)
+		out = append(out, step{job: jw, kind: "writer"})
+		out = append(out, step{job: jr, kind: "plain"})
+	}
 	fa := a
 	fa.Fail = true
 	out = append(out, step{job: tbatch.Plain(0, fa), kind: "expr"})
